@@ -1,5 +1,5 @@
 (* C08 correspondence: cases written by harness/cmd/c08 are evaluated here by vm_compute. *)
-From PF Require Export Base.Bytes Formats.PlyRead Check.Common.
+From PF Require Export Base.Bytes Formats.PlyRead Formats.PlyText Check.Common.
 From Coq Require Import String.
 Open Scope list_scope.
 Open Scope N_scope.
@@ -17,6 +17,9 @@ Inductive case :=
                                                          records: outside the property's quantifier (only vertex and face
                                                          elements are quantified over); the reader decodes foreign bytes, so
                                                          nothing but "it comes back" is asked (harness flag -misplaced only) *)
+| CHeader (text : list N) (lines : list (list string)) (* the header bytes given to polyform (up to and including the
+                                                         end_header line) and the fields per line the harness' tokenizer
+                                                         found in them: ties Formats/PlyText.v (readLine, strings.Fields) *)
 | CRaw (f : plyfile) (out : outcome).                 (* malformed stream or file outside the property's quantifier:
                                                          model vs implementation only *)
 
@@ -60,6 +63,7 @@ Definition corr_ok (c : case) : bool :=
   | CSpec a f out => header_agrees a f && body_agrees (enc_body a) (pf_body f) && outcome_matches (read_mesh f) out
   | CElems a f out => outcome_matches (read_mesh f) out
   | CMisplaced _ _ => true
+  | CHeader text lines => list_eqb (list_eqb seqb) (header_lines text) (lines ++ [[]])
   | CRaw f out => outcome_matches (read_mesh f) out
   end.
 
@@ -72,5 +76,6 @@ Definition prop_ok (c : case) : bool :=
       | _, _ => false
       end
   | CMisplaced _ out => match out with OHang => false | _ => true end
+  | CHeader _ _ => true
   | CRaw _ out => match out with OHang => false | _ => true end
   end.
